@@ -75,6 +75,32 @@ fn strip_nulls(v: &Value) -> Value {
     }
 }
 
+/// members / elements of `a` that `b` lacks or holds with another value (one direction: what `b` adds is not reported)
+fn lost(a: &Value, b: &Value, path: String, out: &mut Vec<String>) {
+    match (a, b) {
+        (Value::Object(x), Value::Object(y)) => {
+            for (k, p) in x {
+                match y.get(k) {
+                    Some(q) => lost(p, q, format!("{path}.{k}"), out),
+                    None => out.push(format!("{path}.{k}")),
+                }
+            }
+        }
+        (Value::Array(x), Value::Array(y)) => {
+            if x.len() != y.len() {
+                out.push(format!("{path}: length {} vs {}", x.len(), y.len()));
+            } else {
+                x.iter().zip(y.iter()).enumerate().for_each(|(i, (p, q))| lost(p, q, format!("{path}[{i}]"), out));
+            }
+        }
+        _ => {
+            if diff(a, b, path.clone()).is_some() {
+                out.push(path);
+            }
+        }
+    }
+}
+
 fn ser_problem(p: &vrp_pragmatic::format::problem::Problem) -> Result<String, String> {
     let mut buf = BufWriter::new(Vec::new());
     serialize_problem(p, &mut buf).map_err(|e| e.to_string())?;
@@ -112,7 +138,10 @@ fn handle(case: &Value) -> Value {
                 let d12 = diff(&v1, &v2, String::new());
                 // every field of the original document that survives under the same name has the same value after one pass
                 let d01 = diff(&strip_nulls(&v0), &strip_nulls(&v1), String::new());
-                json!({"status": "ok", "fixpoint": d12.is_none(), "fixpointDiff": d12.unwrap_or_default(), "firstPassSame": d01.is_none(), "firstPassDiff": d01.unwrap_or_default()})
+                let mut lost_members = vec![];
+                lost(&strip_nulls(&v0), &strip_nulls(&v1), String::new(), &mut lost_members);
+                lost_members.truncate(20);
+                json!({"status": "ok", "lost": lost_members, "fixpoint": d12.is_none(), "fixpointDiff": d12.unwrap_or_default(), "firstPassSame": d01.is_none(), "firstPassDiff": d01.unwrap_or_default()})
             }
             "init" => {
                 let problem_text = serde_json::to_string(&case["problem"]).unwrap();
